@@ -2,6 +2,13 @@ package rules
 
 func init() {
 	register(&Prop{
+		ID:    "C10",
+		Rules: []*Rule{rNil},
+		Explain: "Decides the nil clauses of the property for every exported constructor on every path (nilness abstract interpretation, no execution). " +
+			"NOT decided: equality of Error() strings with the compositional model, 'Join of only nils = nil' (a count over runtime arguments).",
+		Trusted: []string{"go/ssa", "nilness lattice with branch refinement; unknown callees are Top"},
+	})
+	register(&Prop{
 		ID:    "C05",
 		Rules: []*Rule{rAssertOK, rBounds},
 		Explain: "Decides, for every site in /repo's hand-written source, structural necessary conditions of 'DecodeError and the decoded error's methods never panic': " +
